@@ -9,7 +9,7 @@ import subprocess
 import sys
 import time
 
-VERIF = '/verif'
+VERIF = os.path.dirname(os.path.dirname(os.path.abspath(__file__)))
 COQ = f'{VERIF}/coq'
 BBM = f'{VERIF}/ocaml/bbm'
 HARNESS = f'{VERIF}/harness'
@@ -43,7 +43,24 @@ class BuildError(Exception):
         self.log = log
 
 
+COQPROJECT_HEAD = ('-Q . BB\n-arg -w -arg -notation-overridden,-deprecated-hint-without-locality,'
+                   '-deprecated-instance-without-locality\n')
+
+
+def gen_coqproject():
+    """_CoqProject lists every .v under Spec Model Proofs Properties Pins."""
+    files = []
+    for d in ('Spec', 'Model', 'Proofs', 'Properties', 'Pins'):
+        if os.path.isdir(f'{COQ}/{d}'):
+            files += sorted(f'{d}/{f}' for f in os.listdir(f'{COQ}/{d}') if f.endswith('.v'))
+    txt = COQPROJECT_HEAD + '\n'.join(files) + '\n'
+    path = f'{COQ}/_CoqProject'
+    if not os.path.exists(path) or open(path).read() != txt:
+        open(path, 'w').write(txt)
+
+
 def coq_makefile():
+    gen_coqproject()
     if (not os.path.exists(f'{COQ}/Makefile')
             or os.path.getmtime(f'{COQ}/Makefile') < os.path.getmtime(f'{COQ}/_CoqProject')):
         rc, o, e = sh('coq_makefile -f _CoqProject -o Makefile', cwd=COQ)
@@ -63,7 +80,8 @@ def build_coq(targets=None, timeout=3000):
 
 def build_bbm():
     """Extract + compile the model runner when any model/spec .v is newer."""
-    srcs = [f'{COQ}/Extract.v', f'{VERIF}/ocaml/bbm.ml']
+    srcs = [f'{VERIF}/ocaml/{f}' for f in os.listdir(f'{VERIF}/ocaml') if f.endswith('.ml')]
+    srcs += [f'{COQ}/extract/{f}' for f in os.listdir(f'{COQ}/extract')]
     for d in ('Spec', 'Model'):
         for f in os.listdir(f'{COQ}/{d}'):
             if f.endswith('.v'):
@@ -71,7 +89,7 @@ def build_bbm():
     if os.path.exists(BBM) and all(os.path.getmtime(s) <= os.path.getmtime(BBM) for s in srcs):
         return
     # models must be compiled first
-    mods = [s[len(COQ) + 1:-2] + '.vo' for s in srcs if s.startswith(COQ + '/') and 'Extract' not in s]
+    mods = [s[len(COQ) + 1:-2] + '.vo' for s in srcs if s.startswith(COQ + '/') and s.endswith('.v')]
     build_coq(mods)
     rc, o, e = sh(f'{VERIF}/ocaml/build.sh', timeout=900)
     if rc != 0:
